@@ -98,6 +98,7 @@ pub fn profile_for(prop: &str, thorough: bool) -> Profile {
             });
         }
         "C04" => {
+            p.families = &["grid", "dyadic", "jitter", "cosph", "dyadic", "grid", "small"];
             p.max_len = if thorough { 26 } else { 16 };
             p.multi = true;
             p.tune = Some(|w, r, d| {
